@@ -40,5 +40,8 @@ import LdkModel.Props.ChanProto
 #print axioms Ldk.ChanProto.agreement_fails_overdraw
 #print axioms Ldk.ChanProto.stream_accounting_partial
 #print axioms Ldk.ChanProto.lost_messages_retransmitted_partial
+#print axioms Ldk.ChanProto.fee_agreement_partial
+#print axioms Ldk.ChanProto.fee_agreement_fails_lazy_commit
+#print axioms Ldk.ChanProto.fee_quiescent_partial
 #print axioms Ldk.ChanProto.next_stats_sender_covers_peer_partial
 #print axioms Ldk.ChanProto.next_stats_holder_counts_signed
